@@ -13,6 +13,7 @@ import (
 	"io"
 
 	"github.com/EliCDavis/polyform/modeling"
+	"github.com/EliCDavis/polyform/modeling/meshops"
 	"github.com/EliCDavis/vector/vector2"
 )
 
@@ -319,6 +320,155 @@ func (v2pr Vector2PropertyReader) verifControlLAY9GoodAscii(element Element) asc
 			if scalar.Type != st {
 				yOffset = -1
 			}
+		}
+	}
+	if xOffset > -1 && yOffset > -1 {
+		return &builtAsciiVector2PropertyReader{arr: make([]vector2.Float64, element.Count), xOffset: xOffset, yOffset: yOffset, scalarType: st}
+	}
+	return nil
+}
+
+// ---- UNW-1 -----------------------------------------------------------------
+
+// must fire: the per-corner rebuild is skipped by a data-dependent shortcut
+func verifControlUNW1Bad(element Element, endian binary.ByteOrder, in io.Reader, vertexCount int64) (*modeling.Mesh, error) {
+	indices, uvs, err := readBinaryFaceElement(element, endian, in)
+	if err != nil {
+		return nil, err
+	}
+	mesh := modeling.NewMesh(modeling.TriangleTopology, indices)
+	if len(uvs) == len(indices) {
+		if int64(len(indices)) != vertexCount {
+			mesh = mesh.Transform(meshops.UnweldTransformer{})
+		}
+		mesh = mesh.SetFloat2Attribute(modeling.TexCoordAttribute, uvs)
+	}
+	return &mesh, nil
+}
+
+// must fire: texture coordinates dropped for "already unwelded" files
+func verifControlUNW1Bad2(element Element, endian binary.ByteOrder, in io.Reader, vertexCount int64) (*modeling.Mesh, error) {
+	indices, uvs, err := readBinaryFaceElement(element, endian, in)
+	if err != nil {
+		return nil, err
+	}
+	mesh := modeling.NewMesh(modeling.TriangleTopology, indices)
+	if len(uvs) == len(indices) && int64(len(indices)) != vertexCount {
+		mesh = meshops.Unweld(mesh).SetFloat2Attribute(modeling.TexCoordAttribute, uvs)
+	}
+	return &mesh, nil
+}
+
+// must stay silent: separate statements, function form, emptiness guard
+func verifControlUNW1Good(element Element, endian binary.ByteOrder, in io.Reader) (*modeling.Mesh, error) {
+	indices, uvs, err := readBinaryFaceElement(element, endian, in)
+	if err != nil {
+		return nil, err
+	}
+	mesh := modeling.NewMesh(modeling.TriangleTopology, indices)
+	if len(uvs) > 0 && len(uvs) == len(indices) {
+		mesh = meshops.Unweld(mesh)
+		mesh = mesh.SetFloat2Attribute(modeling.TexCoordAttribute, uvs)
+	}
+	return &mesh, nil
+}
+
+// ---- CFG-1 -----------------------------------------------------------------
+
+// must fire: filtering in place re-uses the caller's backing array
+func (mw MeshWriter) verifControlCFG1Bad(mesh modeling.Mesh) []PropertyWriter {
+	ws := mw.Properties[:0]
+	for _, p := range mw.Properties {
+		if p.MeshQualifies(mesh) {
+			ws = append(ws, p)
+		}
+	}
+	return ws
+}
+
+// must fire: element store into the package default table
+func verifControlCFG1Bad2(first PropertyWriter) {
+	w := defaultWriter
+	w.Properties[0] = first
+}
+
+// must stay silent: fresh local slices (also re-sliced with [:0]), copies, capped full-slice append
+func (mw MeshWriter) verifControlCFG1Good(mesh modeling.Mesh, extra PropertyWriter) []PropertyWriter {
+	ws := make([]PropertyWriter, 0, len(mw.Properties))
+	for round := 0; round < 2; round++ {
+		ws = ws[:0]
+		for _, p := range mw.Properties {
+			if p.MeshQualifies(mesh) {
+				ws = append(ws, p)
+			}
+		}
+	}
+	cp := append([]PropertyWriter(nil), mw.Properties...)
+	cp[0] = extra
+	capped := append(mw.Properties[:len(mw.Properties):len(mw.Properties)], extra)
+	mw.Properties = cp
+	mw.Properties = append(mw.Properties, extra)
+	return append(ws, capped...)
+}
+
+// ---- LAY-10 ----------------------------------------------------------------
+
+// must fire: the scan stops after the Y component although X may come later
+func (v2pr Vector2PropertyReader) verifControlLAY10BadAscii(element Element) asciiPropertyReader {
+	xOffset, yOffset := -1, -1
+	var st ScalarPropertyType
+	for i, prop := range element.Properties {
+		scalar := prop.(ScalarProperty)
+		if scalar.PropertyName == v2pr.PlyPropertyX {
+			xOffset = i
+			st = scalar.Type
+		}
+		if scalar.PropertyName == v2pr.PlyPropertyY {
+			yOffset = i
+			break
+		}
+	}
+	if xOffset > -1 && yOffset > -1 {
+		return &builtAsciiVector2PropertyReader{arr: make([]vector2.Float64, element.Count), xOffset: xOffset, yOffset: yOffset, scalarType: st}
+	}
+	return nil
+}
+
+// must fire: the last property is never looked at
+func (v2pr Vector2PropertyReader) verifControlLAY10Bad2Ascii(element Element) asciiPropertyReader {
+	xOffset, yOffset := -1, -1
+	var st ScalarPropertyType
+	for i := 0; i < len(element.Properties)-1; i++ {
+		scalar := element.Properties[i].(ScalarProperty)
+		if scalar.PropertyName == v2pr.PlyPropertyX {
+			xOffset = i
+			st = scalar.Type
+		}
+		if scalar.PropertyName == v2pr.PlyPropertyY {
+			yOffset = i
+		}
+	}
+	if xOffset > -1 && yOffset > -1 {
+		return &builtAsciiVector2PropertyReader{arr: make([]vector2.Float64, element.Count), xOffset: xOffset, yOffset: yOffset, scalarType: st}
+	}
+	return nil
+}
+
+// must stay silent: leaves the scan only once both components are known
+func (v2pr Vector2PropertyReader) verifControlLAY10GoodAscii(element Element) asciiPropertyReader {
+	xOffset, yOffset := -1, -1
+	var st ScalarPropertyType
+	for i, prop := range element.Properties {
+		scalar := prop.(ScalarProperty)
+		if scalar.PropertyName == v2pr.PlyPropertyX {
+			xOffset = i
+			st = scalar.Type
+		}
+		if scalar.PropertyName == v2pr.PlyPropertyY {
+			yOffset = i
+		}
+		if xOffset > -1 && yOffset >= 0 {
+			break
 		}
 	}
 	if xOffset > -1 && yOffset > -1 {
